@@ -57,7 +57,20 @@ class Evaluator:
             elif isinstance(st, ast.Pass):
                 continue
             elif st.__class__.__name__ == "InlineBlock":
-                self.block(st.body)          # a helper analysed in place (inline.py) - tail blocks only
+                # a helper analysed in place (inline.py): its returns bind the result / are the caller's returns
+                try:
+                    self.block(st.body)
+                except _Return as r:
+                    if st.tail is True:
+                        raise
+                    if st.tail == "raise":
+                        raise _Return(("raise", str(r.value)[:40]))
+                    if isinstance(st.result, tuple):
+                        vals = list(r.value) if isinstance(r.value, (tuple, list)) else [r.value] * len(st.result)
+                        for k, v in zip(st.result, vals):
+                            self.env[k] = v
+                    elif st.result:
+                        self.env[st.result] = r.value
             elif isinstance(st, ast.Try):
                 # the modelled domain raises nothing: the body runs, then else / finally
                 self.block(st.body)
